@@ -247,7 +247,7 @@ UNITS = [
       replace=["verif_fmt", "rtr_send_error_pdu_from_host"],
       kind="bounded: response of payload shape [4] + any terminal event", defines=["STORE_SHAPE=4"],
       unwind_functions={"rtr_sync_receive_and_store_pdus": 3, "strlen": 70},
-      native=None, link=PKT_LINK, timeout=14000, object_bits=10, mem_gb=40,
+      native=None, link=PKT_LINK, timeout=14000, object_bits=12, mem_gb=40,
       stubs=["lrtr_malloc", "lrtr_realloc", "lrtr_free", "pfx_table_*", "spki_table_*", "lrtr_dbg", "pthread_setcancelstate"]),
     U(id="store_44", props=["C03", "C05", "C06", "C13", "C14", "C17"], file="units/store.c", entry="h_store", tier="thorough",
       enforce=[], checked_by_assertions=["rtr_sync_receive_and_store_pdus", "rtr_receive_pdu", "rtr_update_pfx_table", "rtr_undo_update_pfx_table",
@@ -255,7 +255,7 @@ UNITS = [
       replace=["verif_fmt", "rtr_send_error_pdu_from_host"],
       kind="bounded: response of payload shape [4, 4] + any terminal event", defines=["STORE_SHAPE=4,4"],
       unwind_functions={"rtr_sync_receive_and_store_pdus": 4, "strlen": 70},
-      native=None, link=PKT_LINK, timeout=14000, object_bits=10, mem_gb=40,
+      native=None, link=PKT_LINK, timeout=14000, object_bits=12, mem_gb=40,
       stubs=["lrtr_malloc", "lrtr_realloc", "lrtr_free", "pfx_table_*", "spki_table_*", "lrtr_dbg", "pthread_setcancelstate"]),
     U(id="store_4446", props=["C03", "C05", "C06", "C13", "C14", "C17"], file="units/store.c", entry="h_store", tier="thorough",
       enforce=[], checked_by_assertions=["rtr_sync_receive_and_store_pdus", "rtr_receive_pdu", "rtr_update_pfx_table", "rtr_undo_update_pfx_table",
@@ -263,7 +263,7 @@ UNITS = [
       replace=["verif_fmt", "rtr_send_error_pdu_from_host"],
       kind="bounded: response of payload shape [4, 4, 4, 6] + any terminal event", defines=["STORE_SHAPE=4,4,4,6"],
       unwind_functions={"rtr_sync_receive_and_store_pdus": 6, "strlen": 70},
-      native=None, link=PKT_LINK, timeout=14000, object_bits=10, mem_gb=40,
+      native=None, link=PKT_LINK, timeout=14000, object_bits=12, mem_gb=40,
       stubs=["lrtr_malloc", "lrtr_realloc", "lrtr_free", "pfx_table_*", "spki_table_*", "lrtr_dbg", "pthread_setcancelstate"]),
     U(id="store_669", props=["C03", "C05", "C06", "C13", "C14", "C17"], file="units/store.c", entry="h_store", tier="thorough",
       enforce=[], checked_by_assertions=["rtr_sync_receive_and_store_pdus", "rtr_receive_pdu", "rtr_update_pfx_table", "rtr_undo_update_pfx_table",
@@ -271,7 +271,7 @@ UNITS = [
       replace=["verif_fmt", "rtr_send_error_pdu_from_host"],
       kind="bounded: response of payload shape [6, 6, 9] + any terminal event", defines=["STORE_SHAPE=6,6,9"],
       unwind_functions={"rtr_sync_receive_and_store_pdus": 5, "strlen": 70},
-      native=None, link=PKT_LINK, timeout=14000, object_bits=10, mem_gb=40,
+      native=None, link=PKT_LINK, timeout=14000, object_bits=12, mem_gb=40,
       stubs=["lrtr_malloc", "lrtr_realloc", "lrtr_free", "pfx_table_*", "spki_table_*", "lrtr_dbg", "pthread_setcancelstate"]),
     U(id="store_49", props=["C03", "C05", "C06", "C13", "C14", "C17"], file="units/store.c", entry="h_store", tier="thorough",
       enforce=[], checked_by_assertions=["rtr_sync_receive_and_store_pdus", "rtr_receive_pdu", "rtr_update_pfx_table", "rtr_undo_update_pfx_table",
@@ -279,7 +279,7 @@ UNITS = [
       replace=["verif_fmt", "rtr_send_error_pdu_from_host"],
       kind="bounded: response of payload shape [4, 9] + any terminal event", defines=["STORE_SHAPE=4,9"],
       unwind_functions={"rtr_sync_receive_and_store_pdus": 4, "strlen": 70},
-      native=None, link=PKT_LINK, timeout=14000, object_bits=10, mem_gb=40,
+      native=None, link=PKT_LINK, timeout=14000, object_bits=12, mem_gb=40,
       stubs=["lrtr_malloc", "lrtr_realloc", "lrtr_free", "pfx_table_*", "spki_table_*", "lrtr_dbg", "pthread_setcancelstate"]),
     U(id="store_4444", props=["C03", "C05", "C06", "C13", "C14", "C17"], file="units/store.c", entry="h_store", tier="thorough",
       enforce=[], checked_by_assertions=["rtr_sync_receive_and_store_pdus", "rtr_receive_pdu", "rtr_update_pfx_table", "rtr_undo_update_pfx_table",
@@ -287,7 +287,7 @@ UNITS = [
       replace=["verif_fmt", "rtr_send_error_pdu_from_host"],
       kind="bounded: response of payload shape [4, 4, 4, 4] + any terminal event", defines=["STORE_SHAPE=4,4,4,4"],
       unwind_functions={"rtr_sync_receive_and_store_pdus": 6, "strlen": 70},
-      native=None, link=PKT_LINK, timeout=14000, object_bits=10, mem_gb=40,
+      native=None, link=PKT_LINK, timeout=14000, object_bits=12, mem_gb=40,
       stubs=["lrtr_malloc", "lrtr_realloc", "lrtr_free", "pfx_table_*", "spki_table_*", "lrtr_dbg", "pthread_setcancelstate"]),
     U(id="store_4469", props=["C03", "C05", "C06", "C13", "C14", "C17"], file="units/store.c", entry="h_store", tier="thorough",
       enforce=[], checked_by_assertions=["rtr_sync_receive_and_store_pdus", "rtr_receive_pdu", "rtr_update_pfx_table", "rtr_undo_update_pfx_table",
@@ -295,7 +295,7 @@ UNITS = [
       replace=["verif_fmt", "rtr_send_error_pdu_from_host"],
       kind="bounded: response of payload shape [4, 4, 6, 9] + any terminal event", defines=["STORE_SHAPE=4,4,6,9"],
       unwind_functions={"rtr_sync_receive_and_store_pdus": 6, "strlen": 70},
-      native=None, link=PKT_LINK, timeout=14000, object_bits=10, mem_gb=40,
+      native=None, link=PKT_LINK, timeout=14000, object_bits=12, mem_gb=40,
       stubs=["lrtr_malloc", "lrtr_realloc", "lrtr_free", "pfx_table_*", "spki_table_*", "lrtr_dbg", "pthread_setcancelstate"]),
     U(id="store_06", props=["C03", "C05", "C06", "C13", "C14", "C17"], file="units/store.c", entry="h_store", tier="thorough",
       enforce=[], checked_by_assertions=["rtr_sync_receive_and_store_pdus", "rtr_receive_pdu", "rtr_update_pfx_table", "rtr_undo_update_pfx_table",
@@ -303,7 +303,7 @@ UNITS = [
       replace=["verif_fmt", "rtr_send_error_pdu_from_host"],
       kind="bounded: response of payload shape [0, 6] + any terminal event", defines=["STORE_SHAPE=0,6"],
       unwind_functions={"rtr_sync_receive_and_store_pdus": 4, "strlen": 70},
-      native=None, link=PKT_LINK, timeout=14000, object_bits=10, mem_gb=40,
+      native=None, link=PKT_LINK, timeout=14000, object_bits=12, mem_gb=40,
       stubs=["lrtr_malloc", "lrtr_realloc", "lrtr_free", "pfx_table_*", "spki_table_*", "lrtr_dbg", "pthread_setcancelstate"]),
     # ------------------------------------------------------------------ payload phase, modular pieces (C03, C14)
     U(id="pdu2rec_pfx", props=['C03'], file="units/apply.c", entry="h_pdu2rec_pfx", defines=["H_ENTRY=h_pdu2rec_pfx"], enforce=[],
@@ -378,6 +378,23 @@ UNITS = [
       enforce=["pfx_table_validate_r"], replace=["trie_lookup", "pfx_table_elem_matches"], loops=[VALIDATE_LOOP], kind="unbounded",
       need_classes=["postcondition", "loop_invariant_step", "precondition"], native=None, timeout=2400,
       stubs=["lrtr_ip_addr_get_bits", "lrtr_ip_addr_is_zero", "lrtr_ip_addr_equal", "pthread_rwlock_*"]),
+    U(id="pfx_hist", props=["C02", "C09", "C16", "C18"], file="units/pfx_hist.c", entry="h_pfx_hist", defines=["STUB_IP"], enforce=[], plain=True, tier="thorough",
+      checked_by_assertions=["pfx_table_add", "pfx_table_remove", "pfx_table_src_remove", "pfx_table_remove_id", "pfx_table_for_each_ipv4_record",
+                             "pfx_table_for_each_ipv6_record", "trie_insert", "trie_remove", "trie_lookup_exact", "pfx_table_find_elem",
+                             "pfx_table_append_elem", "pfx_table_del_elem", "pfx_table_create_node"],
+      need_classes=["assertion"], kind="bounded: histories of 2 adds + 1 operation (quick) / 3 + 1 (thorough) from the empty table",
+      tier_defines={"quick": {"HIST_N": 2}, "thorough": {"HIST_N": 3}}, bound=6, native=None, timeout={"quick": 1800, "thorough": 14000},
+      unwindset={"trie_remove": {"quick": 3, "thorough": 4}, "trie_insert": {"quick": 3, "thorough": 4},
+                 "pfx_table_remove_id": {"quick": 3, "thorough": 4}, "pfx_table_for_each_rec": {"quick": 4, "thorough": 5}},
+      object_bits=10, stubs=["lrtr_malloc", "lrtr_realloc", "lrtr_free", "pthread_rwlock_*", "lrtr_ip_addr_*"]),
+    U(id="spki_hist", props=["C10", "C16", "C18"], file="units/spki_hist.c", entry="h_spki_hist", enforce=[], plain=True,
+      checked_by_assertions=["spki_table_add_entry", "spki_table_remove_entry", "spki_table_src_remove", "spki_table_get_all",
+                             "spki_table_search_by_ski", "key_entry_cmp", "tommy_hashlin_insert", "tommy_hashlin_remove",
+                             "tommy_hashlin_remove_existing", "tommy_hashlin_search", "tommy_list_insert_tail", "tommy_list_remove_existing"],
+      need_classes=["assertion"], kind="bounded: histories of 2 adds + 1 operation (quick) / 3 + 1 (thorough), table below the first resize step",
+      tier_defines={"quick": {"KH_N": 2}, "thorough": {"KH_N": 3}}, bound=6, native=None, timeout={"quick": 1800, "thorough": 14000},
+      unwindset={"memcmp.0": 93, "key_eq.0": 93, "ski_eq.0": 22, "mk_key.0": 22, "mk_key.1": 93, "h_spki_hist.2": 22, "memcpy.0": 93},
+      object_bits=10, stubs=["lrtr_malloc", "lrtr_calloc", "lrtr_realloc", "lrtr_free", "pthread_rwlock_*"]),
     # ------------------------------------------------------------------ C20
     U(id="c20_state_names", props=["C20"], file="units/c20_state_names.c", entry="h_c20_state",
       enforce=["rtr_state_to_str"], kind="complete", bound=70,
